@@ -80,7 +80,7 @@ func sortStrings(s []string) {
 	}
 }
 
-var defaultGapW = []int{3, 4, 10, 30, 6, 3, 2, 2, 2, 1, 1, 1, 1, 1}
+var defaultGapW = []int{3, 4, 10, 30, 6, 3, 2, 2, 2, 1, 1, 1, 1, 1, 6}
 
 // GenGenesis draws a genesis configuration: 3-7 validators, most users delegating to 1-3 validators.
 func GenGenesis(t *rapid.T) GenesisCfg {
@@ -187,7 +187,9 @@ func genGap(t *rapid.T, p *Profile) GapSpec {
 	if k == 0 {
 		g.Ms = pick(t, "gapMs", []int64{1, 2, 500, 999, 1000, 1500, 5000})
 	}
-	if k >= 5 {
+	if k == GapToDeadline {
+		g.Delta = pick(t, "deadlineDelta", []int64{0, 0, 1, -1, 1, -1, 1000})
+	} else if k >= 5 {
 		g.Delta = pick(t, "gapDelta", []int64{0, 0, 1, -1, 1000, -1000})
 	}
 	if uni(t, "jitter", 10) == 0 {
